@@ -30,7 +30,7 @@ def _run_conf_step(arg):
         tables, scores, run["conf"], root, run.get("in_name", "in"), fmt=run["format"], row_group=run.get("row_group"),
         sched_desc=run.get("sched"), knobs=run.get("knobs"), glob_seed=run.get("glob_seed"),
         faults=[run["fault"]] if run.get("fault") else None, killable=True, report_path=arg.get("report"),
-        dest=root / "out", max_workers=run.get("max_workers", 1),
+        dest=root / "out", max_workers=run.get("max_workers", 1), fasta_seed=run.get("fasta_seed"),
     )
     rep = res.fs.report()
     rep["error"] = res.error
